@@ -68,6 +68,7 @@ class Recorder:
         self.errors: list[dict] = []
         self.slowest: list = []
         self.current_case = None
+        self.first_case = None
 
     # -- observations -------------------------------------------------------------------------
     def evaluation(self, n: int = 1):
